@@ -199,7 +199,7 @@ func c08scenarios(thorough bool) []c08scn {
 			}
 			pc := verifhooks.PrefilledCache(slots, pk, pv)
 			k1, k2 := verifhooks.FakeType(0x1000), verifhooks.FakeType(0x2000) // collide modulo every table size
-			var mu sync.Mutex // (the harness's own counter must not race in the -race pass)
+			var mu sync.Mutex                                                  // (the harness's own counter must not race in the -race pass)
 			calls := map[string]int{}
 			comp := func(name string, val int) func() (interface{}, error) {
 				return func() (interface{}, error) { mu.Lock(); calls[name]++; mu.Unlock(); return val, nil }
@@ -336,9 +336,22 @@ func c08run(c *ev.Ctx, r *ev.Report) {
 	}
 	debug.SetGCPercent(400)
 	scns := c08scenarios(c.Thorough())
+	// iterative context bounding ACROSS scenarios: every scenario is completed at bound 0,
+	// then every scenario at bound 1, ... so that a deadline cuts the deepest bound of the
+	// last scenarios, never a whole scenario
+	type scnState struct {
+		allowed  map[string]bool
+		bounds   []int
+		outcomes map[string]bool
+		maxBound int
+		done     bool
+		points   int
+		execs    int
+	}
+	sts := make([]*scnState, len(scns))
+	top := 0
 	for si := range scns {
 		s := &scns[si]
-		allowed := c08allowed(s)
 		// preemption bounds: the cache component scenarios are cheap (no compilation): 3;
 		// API scenarios cost a compilation per execution: 1 in quick (2 for the scenario whose
 		// module registrations overlap), 2 in thorough
@@ -352,24 +365,32 @@ func c08run(c *ev.Ctx, r *ev.Report) {
 			bounds = []int{0, 1, 2}
 		}
 		r.SetAdd("preemption_bounds", fmt.Sprintf("%s: %v", s.name, bounds))
-		outcomes := map[string]bool{}
-		maxBound := -1
-		for _, b := range bounds {
+		sts[si] = &scnState{allowed: c08allowed(s), bounds: bounds, outcomes: map[string]bool{}, maxBound: -1}
+		if m := bounds[len(bounds)-1]; m > top {
+			top = m
+		}
+	}
+	for b := 0; b <= top; b++ {
+		for si := range scns {
+			s, ss := &scns[si], sts[si]
+			if ss.done || b > ss.bounds[len(ss.bounds)-1] {
+				continue
+			}
 			bad := 0
 			st := vshim.Explore(b, (c.Shard+int(c.Seed))%c.NShard, c.NShard, s.mk, func(x vshim.Exec, ch []int) bool {
 				oc := fmt.Sprint(x.Deadlock, "\x00", vecOf(x))
-				if !outcomes[oc] {
-					outcomes[oc] = true
+				if !ss.outcomes[oc] {
+					ss.outcomes[oc] = true
 					r.SetAdd("outcome", fmt.Sprintf("%d:%x", si, fnvs(oc)))
 				}
-				if cl := classify16(x, allowed); cl != "" {
+				if cl := classify16(x, ss.allowed); cl != "" {
 					if cl == "infra-divergence" {
 						r.Notes = append(r.Notes, "replay divergence in "+s.name+": "+x.Diverged)
 						r.Exhaustive = false
 						return false
 					}
 					bad++
-					r.Violate(*c08viol(s, cl, x, ch, allowed, c.Thorough()))
+					r.Violate(*c08viol(s, cl, x, ch, ss.allowed, c.Thorough()))
 					if bad >= 3 {
 						return false
 					}
@@ -383,23 +404,31 @@ func c08run(c *ev.Ctx, r *ev.Report) {
 			if st.MaxPoints > int(r.Counters["max_points_per_execution"]) {
 				r.Counters["max_points_per_execution"] = int64(st.MaxPoints)
 			}
+			if st.MaxPoints > ss.points {
+				ss.points = st.MaxPoints
+			}
+			ss.execs += st.Execs
 			if st.Stopped {
 				if c.Expired() {
 					r.Exhaustive = false
 				}
-				break
+				ss.done = true
+				continue
 			}
-			maxBound = b
+			ss.maxBound = b
 			if bad > 0 {
-				break
+				ss.done = true
 			}
+			runtime.GC()
 		}
-		r.SetAdd(fmt.Sprintf("scenario_shards_completed_at_preemption_bound_%d", maxBound), fmt.Sprintf("%d/%d", si, c.Shard))
+	}
+	for si := range scns {
+		s, ss := &scns[si], sts[si]
+		r.SetAdd(fmt.Sprintf("scenario_shards_completed_at_preemption_bound_%d", ss.maxBound), fmt.Sprintf("%d/%d", si, c.Shard))
 		if c.Shard == 0 {
 			r.Count("scenarios", 1)
-			r.Sample(map[string]interface{}{"scenario": s.name, "bound_completed_by_shard_0": maxBound, "distinct_outcomes_seen_by_shard_0": len(outcomes)})
+			r.Sample(map[string]interface{}{"scenario": s.name, "bound_completed_by_shard_0": ss.maxBound, "distinct_outcomes_seen_by_shard_0": len(ss.outcomes), "max_points_per_execution": ss.points, "executions_by_shard_0": ss.execs})
 		}
-		runtime.GC()
 	}
 	if c.Shard == 0 {
 		if bin := os.Getenv("VERIF_RACE_BIN"); bin != "" {
